@@ -511,6 +511,18 @@ class _FuseGen(ast.NodeTransformer):
     visit_ListComp = visit_SetComp = visit_GeneratorExp
 
 
+class _NotIn(ast.NodeTransformer):
+    """not (a in b) -> a not in b;  not (a not in b) -> a in b;  likewise `is` / `is not`"""
+
+    def visit_UnaryOp(self, n):
+        self.generic_visit(n)
+        if isinstance(n.op, ast.Not) and isinstance(n.operand, ast.Compare) and len(n.operand.ops) == 1:
+            flip = {ast.In: ast.NotIn, ast.NotIn: ast.In, ast.Is: ast.IsNot, ast.IsNot: ast.Is}.get(type(n.operand.ops[0]))
+            if flip is not None:
+                return ast.copy_location(ast.Compare(left=n.operand.left, ops=[flip()], comparators=n.operand.comparators), n)
+        return n
+
+
 def _max_loads(stmts, name):
     """largest number of reads of `name` on one path through the block (a read inside a loop body or a nested definition counts
     twice: it may happen again)"""
@@ -559,6 +571,7 @@ def desugar(fnode):
               and cnt.get(n.targets[0].id, (0, 0))[0] == 1
               and (cnt.get(n.targets[0].id) == (1, 1) or (cnt[n.targets[0].id][1] > 1 and _max_loads(f.body, n.targets[0].id) == 1))}
     f = d.visit(f)
+    f = _NotIn().visit(f)
     # values picked by a branch (now written as if-statements) and used once by the next statement: written at that use, then the
     # result is brought to canonical form once more
     before = ast.dump(f)
